@@ -89,7 +89,10 @@ def run(ns, via_repo, tier):
         else:
             wt = worktree()
             rc, out = sh(["git", "-C", wt, "apply", os.path.join(d, "patch.diff")])
-            assert rc == 0, out
+            if rc != 0:
+                drop(wt)
+                print(n, "PATCH DOES NOT APPLY to /repo HEAD:", out.strip()[:200], flush=True)
+                continue
             env = {"VERIF_REPO": wt}
         rec = {}
         try:
